@@ -1,5 +1,6 @@
 import Clikit.Drv.Util
 import Clikit.Model.Dispatcher
+import Clikit.Model.ConfigDispatcher
 namespace Clikit.Drv.C12
 open Lean Clikit.Drv Clikit.Dispatcher
 
@@ -59,6 +60,25 @@ def op (j : Json) : R Op := do
     return .getPriority (← nat (← fld a 1)) ⟨← nat (← fld a 2), ← bool (← fld a 3)⟩
   | _ => throw "unknown operation"
 
+/-- one operation of a history with an `ApplicationConfig`: `["set"]` (set_event_dispatcher with the caller's
+dispatcher), `["cadd", e, id, stops, p|null]` (config.add_event_listener), `["own", op]` (on the caller's object),
+`["cfg", op]` (on `config.dispatcher`) -/
+def cop (j : Json) : R COp := do
+  match j with
+  | .arr #[.str "set"] => return .set
+  | .arr #[.str "own", o] => return .onOwn (← op o)
+  | .arr #[.str "cfg", o] => return .onCfg (← op o)
+  | .arr a =>
+    match (← fld a 0) with
+    | .str "cadd" =>
+      if a.size != 5 then throw "cadd: 5 fields expected"
+      let p ← match (← fld a 4) with
+        | .null => pure Clikit.Gen.C12.defaultPriority
+        | v => int v
+      return .cfgAdd (← nat (← fld a 1)) ⟨← nat (← fld a 2), ← bool (← fld a 3)⟩ p
+    | _ => throw "unknown configuration operation"
+  | _ => throw "configuration operation: array expected"
+
 def ids (ls : List Listener) : Json := jList (fun l => jNat l.id) ls
 
 /-- outputs, compact: add -> null, dispatch -> [[ids called], stopped], has -> bool,
@@ -85,6 +105,19 @@ def handle (m : String) (j : Json) : Option (R Json) :=
       match run init ops with
       | .ok (_, outs) => return (jOk (Json.mkObj [("outs", jList out outs), ("spec", spec)])).setObjVal! "wf" wf
       | .error e => return Json.mkObj [("err", .str e.name), ("spec", spec), ("wf", wf)]
+  | "c12.cfgrun" => some do
+      -- a history on an ApplicationConfig and the dispatcher the caller created (`crun CSt.init`); `lazy`: the caller
+      -- created none (every operation goes through the configuration).  One output per operation, null for `set`.
+      let ops ← (← fArr j "ops").toList.mapM cop
+      match crun CSt.init ops with
+      | .error e => return Json.mkObj [("err", .str e.name)]
+      | .ok (_, outs) =>
+        let rec weave : List COp → List Out → List Json
+          | [], _ => []
+          | .set :: r, os => Json.null :: weave r os
+          | _ :: r, o :: os => out o :: weave r os
+          | _ :: _, [] => []
+        return jOk (jList id (weave ops outs))
   | _ => none
 
 end Clikit.Drv.C12
